@@ -21,6 +21,18 @@ CHECKS = {
         technique="TLA+ spec (Segments.tla) model-checked by TLC + trace validation of exhaustive real-code answers"),
 }
 
+
+STORE_NOTE = "trusts: TLC, the Go projection of store bytes onto typed values (harness/store.go), small-integer value domain (no float rounding); real dstore local files, uncompressed for the bulk"
+STORE_TECH = "TLA+ store spec (Store.tla/MCStore.tla) model-checked by TLC + trace validation (TraceStore.tla) of real FullKV/PartialKV executions"
+CHECKS.update({
+    "C02": dict(engine="store", level=("model_checking", "TLC exhaustively explores the store model MCStore.tla (every block of <=2 operations over 3 keys x 2 values x ordinals {0,1} x delete_prefix, cuts, undo; per update policy) checking MergedEqualsSequential (merge of the partials = sequential execution) in every reachable state; the real FullKV/PartialKV objects are then driven through the same small scope exhaustively for all 27 (policy, value type) pairs plus seeded random chains, and TraceStore.tla judges every observed step with the operators of Store.tla.", "6/C02"), note=STORE_NOTE, technique=STORE_TECH),
+    "C08": dict(engine="store", level=("model_checking", "TLC exhaustively explores the store model MCStore.tla (every block of <=2 operations over 3 keys x 2 values x ordinals {0,1} x delete_prefix, cuts, undo; per update policy) checking that the implementation's way of answering reads from the deltas (transcribed) equals the property-level definition for every pre-content, block, key and ordinal; the real FullKV/PartialKV objects are then driven through the same small scope exhaustively for all 27 (policy, value type) pairs plus seeded random chains, and TraceStore.tla judges every observed step with the operators of Store.tla.", "6/C08"), note=STORE_NOTE, technique=STORE_TECH),
+    "C09": dict(engine="store", level=("model_checking", "TLC exhaustively explores the store model MCStore.tla (every block of <=2 operations over 3 keys x 2 values x ordinals {0,1} x delete_prefix, cuts, undo; per update policy) checking the model; replay of the recorded operation log on twin full and partial stores is compared delta-for-delta (bytes and typed) with the original execution; the real FullKV/PartialKV objects are then driven through the same small scope exhaustively for all 27 (policy, value type) pairs plus seeded random chains, and TraceStore.tla judges every observed step with the operators of Store.tla.", "6/C09"), note=STORE_NOTE, technique=STORE_TECH),
+    "C11": dict(engine="store", level=("model_checking", "TLC exhaustively explores the store model MCStore.tla (every block of <=2 operations over 3 keys x 2 values x ordinals {0,1} x delete_prefix, cuts, undo; per update policy) checking SizeExact (incremental accounting = sum of key and value lengths) after every block, merge, undo; the real FullKV/PartialKV objects are then driven through the same small scope exhaustively for all 27 (policy, value type) pairs plus seeded random chains, and TraceStore.tla judges every observed step with the operators of Store.tla.", "6/C11"), note=STORE_NOTE + "; the 1 GiB limit itself is not provoked (unexported constant): exact accounting at every step is what is checked", technique=STORE_TECH),
+    "C10": dict(engine="snap", level=("model_checking", "TLC exhaustively checks the naming/listing model MCSnap.tla (all sets of <=4 snapshots over 0..6, all boundaries); the real Save/Load/ListSnapshotFiles are driven with random binary contents, 10-digit ranges and crash debris and every observed round trip and listing is judged by TraceSnap.tla against the abstract file set.", "6/C10"),
+                note="trusts TLC and hex logging of contents; only the local dstore; contents of thousands of entries only in the thorough tier", technique="TLA+ spec (MCSnap.tla) + trace validation (TraceSnap.tla, TraceStore.tla) of real Save/Load/List"),
+})
+
 NOT_YET = "machinery for this property is not built yet in this revision (work in progress; see DESIGN.md section 9 for the plan)"
 
 
